@@ -287,6 +287,11 @@ def run(ctx: Ctx):
     for c in CORPUS:
         c01_e2e.one_case(ctx, c, "corpus")
     n_e2e, n_tie = ctx.n(260, 4000), ctx.n(160, 2500)
+    # ranks that are separate processes with identically seeded PRNGs (seed_everything(s)): real gloo job, real FS plugin
+    from props import c05 as _c05
+    for i in range(ctx.n(1, 8)):
+        _c05._seeded_processes(ctx, {"W": ctx.rng.choice([2, 2, 3]), "seed": ctx.rng.randrange(10 ** 6), "async": ctx.rng.random() < 0.3,
+                                     "elems": [ctx.rng.randint(1, 40) for _ in range(ctx.rng.randint(2, 5))], "slab": ctx.rng.choice([0, 64])}, 100 + i)
     for i in range(ctx.n(120, 2000)):
         if ctx.time_left() < 60:
             ctx.notes.append(f"world tie stream stopped early at {i}")
@@ -320,7 +325,10 @@ def replay(ctx: Ctx, rec):
     inp = rec["input"]
     if "case" in inp:
         inp = inp["case"]
-    if "glob" in inp:
+    if inp.get("seeded_processes"):
+        from props import c05 as _c05
+        _c05._seeded_processes(ctx, {k: v for k, v in inp.items() if k != "seeded_processes"}, 0, suite="replay", verbose=True)
+    elif "glob" in inp:
         c01_world.world_tie_case(ctx, inp, "replay")
     elif "state" in inp:
         model_tie_case(ctx, inp, "replay")
